@@ -1,6 +1,7 @@
 package props
 
 import (
+	"math"
 	"context"
 	"fmt"
 	"testing"
@@ -412,9 +413,22 @@ func TestC15_timecontrol(t *testing.T) {
 				return rapid.Int64Range(0, 24*3600*1000).Draw(t, l)
 			}
 		}
-		return timeCase{WhiteMS: ms("w"), BlackMS: ms("b"), Moves: rapid.SampledFrom([]int{-1, 0, 0, 1, 1, 2, 3, 10, 40, 10000}).Draw(t, "moves"), White: rapid.Bool().Draw(t, "white")}
+		return timeCase{WhiteMS: ms("w"), BlackMS: ms("b"), Moves: drawMovesToGo(t), White: rapid.Bool().Draw(t, "white")}
 	}, func(c timeCase) error {
 		stats.Sample("C15/timecontrol", c)
 		return checkC15Time(c)
 	})
+}
+
+// drawMovesToGo: whatever integer a "go ... movestogo N" line can carry (the driver parses any
+// int): the usual small values, and the boundaries of the integer widths.
+func drawMovesToGo(t *rapid.T) int {
+	switch rapid.IntRange(0, 5).Draw(t, "moveskind") {
+	case 0, 1, 2:
+		return rapid.SampledFrom([]int{-1, 0, 0, 1, 1, 2, 3, 10, 40, 10000}).Draw(t, "moves")
+	case 3:
+		return rapid.SampledFrom([]int{math.MaxInt32 - 1, math.MaxInt32, math.MaxInt32 + 1, 1<<62 - 2, 1<<62 - 1, 1 << 62, math.MaxInt64 - 1, math.MaxInt64, math.MinInt64, math.MinInt64 + 1, -math.MaxInt32}).Draw(t, "edge")
+	default:
+		return rapid.Int().Draw(t, "any")
+	}
 }
